@@ -116,12 +116,17 @@ func TestBatches(t *testing.T) {
 		if len(all) > 1 {
 			all = rapid.Permutation(all).Draw(t, "issuerOrder") // e.g. (type 1, type 2, type 1)
 		}
-		// the constructor gets its own slice, which the caller overwrites afterwards: the batch issuer must not depend on it
+		// the constructor gets its own slice, which must come back unchanged
 		ctorArgs := append([]batched.Issuer{}, all...)
 		bi := batched.NewBasicBatchedIssuer(ctorArgs...)
 		for i := range ctorArgs {
-			ctorArgs[i] = nil
+			if ctorArgs[i] != all[i] {
+				rt.Fail(t, "C05/constructor-wrote-to-its-argument", "NewBasicBatchedIssuer(list...) changed the caller's slice: entry %d of %d is no longer the issuer that was passed there (types in the order given: %v)", i, len(all), typesOf(all))
+				return
+			}
 		}
+		// (the caller's slice is left alone afterwards: whether a constructor may keep referring to the slice it was given is
+		// not something this property decides)
 
 		// several batches are evaluated by the SAME batch issuer object, one after the other
 		nBatches := gen.UniformRange(t, 1, 3, "batches")
@@ -129,6 +134,10 @@ func TestBatches(t *testing.T) {
 			// ---- batch
 			kinds := []string{"t1-known", "t1-unknown", "t1-malformed", "t2-known", "t2-unknown", "t2-malformed"}
 			n := gen.UniformRange(t, 1, maxLen, "batchLen")
+			if n1 >= 9 {
+				// many issuers: long batches too, so that one batch names more distinct (type, key id) pairs than any small table holds and comes back to earlier ones
+				n = gen.UniformRange(t, 12, 45, "longBatchLen")
+			}
 			var items []item
 			for i := 0; i < n; i++ {
 				kind := gen.Pick(t, kinds, "kind")
@@ -523,9 +532,11 @@ func TestTruncatedIDCollisions(t *testing.T) {
 
 // TestLargeBatches: batch sizes whose request and response lists cross the 2-byte -> 4-byte varint boundary (16383 bytes).
 func TestLargeBatches(t *testing.T) {
-	s := rt.S("large-batches").SetRule("batches with 63, 64, 65 successful type-2 requests (259-byte entries: 16317 / 16576 / 16835 bytes), 110, 111, 112 successful type-1 requests (148-byte entries) and mixed batches of that size with a few failing requests inside, over the wire; same oracle (one entry per request in order, presence per model, present entries finalize). non-trivial = every batch; distinct by batch bytes")
+	s := rt.S("large-batches").SetRule("batches with 63, 64, 65 successful type-2 requests (259-byte entries: 16317 / 16576 / 16835 bytes), 110, 111, 112 successful type-1 requests (148-byte entries) and mixed batches of that size, and batches whose response list exceeds 65535 bytes (266 type-2, 462 type-1, 240+125), with a few failing requests inside, over the wire; same oracle (one entry per request in order, presence per model, present entries finalize). non-trivial = every batch; distinct by batch bytes")
 	// every 37th request fails, so e.g. 66 type-2 requests give 64 present entries (16576 bytes + 2 absent markers)
-	sizes := []struct{ n1, n2 int }{{0, 65}, {0, 66}, {0, 67}, {113, 0}, {114, 0}, {115, 0}, {60, 50}}
+	sizes := []struct{ n1, n2 int }{{0, 65}, {0, 66}, {0, 67}, {113, 0}, {114, 0}, {115, 0}, {60, 50},
+		// response lists beyond 65535 bytes (16-bit offsets and lengths wrap here): >= 257 present type-2 / >= 443 present type-1 entries
+		{0, 266}, {462, 0}, {240, 125}}
 	if rt.Thorough() {
 		sizes = append(sizes, []struct{ n1, n2 int }{{0, 127}, {0, 128}, {221, 0}, {222, 0}, {100, 100}}...)
 	}
@@ -617,4 +628,12 @@ func TestLargeBatches(t *testing.T) {
 			})
 		}
 	})
+}
+
+func typesOf(l []batched.Issuer) []uint16 {
+	var out []uint16
+	for _, i := range l {
+		out = append(out, i.Type())
+	}
+	return out
 }
